@@ -849,7 +849,11 @@ func unop(instr *ssa.UnOp, x value) value {
 		case token.NOT:
 			return &Sym{Sort: "Bool", T: "(not " + s.T + ")"}
 		case token.SUB:
-			return &Sym{Sort: "Int", T: "(- " + s.T + ")"}
+			r := &Sym{Sort: "Int", T: "(- " + s.T + ")"}
+			if s.Bounded {
+				r.Lo, r.Hi, r.Bounded = -s.Hi, -s.Lo, true
+			}
+			return r
 		}
 		panic(unsupported{"symbolic unop " + instr.Op.String()})
 	}
@@ -1219,7 +1223,14 @@ func widen(x value) value {
 func conv(t_dst, t_src types.Type, x value) value {
 	if s, ok := x.(*Sym); ok {
 		if sortOf(t_dst) == s.Sort {
-			return s // width changes of symbolic ints are not modelled (stated bound)
+			if s.Sort == "Int" {
+				// a width change is the identity only if the value fits the destination type
+				tl, th := typeRange(t_dst)
+				if !s.Bounded || s.Lo < tl || s.Hi > th {
+					panic(unsupported{fmt.Sprintf("conversion of a symbolic integer to %s may truncate (interval [%d,%d], bounded=%v)", t_dst, s.Lo, s.Hi, s.Bounded)})
+				}
+			}
+			return s
 		}
 		if sortOf(t_dst) == "Real" && s.Sort == "Int" {
 			return &Sym{Sort: "Real", T: "(to_real " + s.T + ")"}
